@@ -216,6 +216,35 @@ theorem tiled_no_overlap (kd : Bool) (c : Chan α) (h : Tiled kd c) (a b : Row)
   · have := pairwise_mem_ne (fun _ _ => disj_symm) c.rows h.disj a ha b hb e
     unfold Row.disj at this; omega
 
+/-- **Exact tiling**: in a tiled channel every array position belongs to exactly one index row
+    (no gap, no overlap). -/
+theorem tiled_exact (kd : Bool) (c : Chan α) (h : Tiled kd c) (p : Nat) (hp : p < c.data.length) :
+    ∃ r, (r ∈ c.rows ∧ r.start ≤ p ∧ p < r.start + r.size) ∧
+      ∀ r', (r' ∈ c.rows ∧ r'.start ≤ p ∧ p < r'.start + r'.size) → r' = r := by
+  have hsum : ((List.range c.data.length).map fun p => c.rows.countP (·.covers p)).sum
+      = c.data.length := by
+    rw [sum_countP_swap]
+    have : (c.rows.map fun r => (List.range c.data.length).countP r.covers) = c.rows.map (·.size) := by
+      apply List.map_congr_left
+      intro r hr
+      have := h.inside r hr
+      rw [countP_range_covers]; omega
+    rw [this]; exact h.total
+  have hone := all_one_of_sum _ (by
+      intro x hx
+      obtain ⟨q, _, rfl⟩ := List.mem_map.mp hx
+      exact countP_covers_le_one q c.rows h.disj) (by simpa using hsum)
+    (c.rows.countP (·.covers p)) (List.mem_map.mpr ⟨p, List.mem_range.mpr hp, rfl⟩)
+  have hpos : 0 < c.rows.countP (·.covers p) := by omega
+  obtain ⟨r, hr, hc⟩ := List.countP_pos_iff.mp hpos
+  simp only [Row.covers, Bool.and_eq_true, decide_eq_true_eq] at hc
+  refine ⟨r, ⟨hr, hc⟩, ?_⟩
+  intro r' ⟨hr', hc'⟩
+  by_cases e : r' = r
+  · exact e
+  · have := pairwise_mem_ne (fun _ _ => disj_symm) c.rows h.disj r' hr' r hr e
+    unfold Row.disj at this; omega
+
 /-! ### The whole store refines a last-write-wins map -/
 
 def SInv (kindOf : String → Bool) (s : Store α) : Prop :=
